@@ -8,7 +8,10 @@ compile).
 Subset: locals and parameters of integer / char* type; integer and character literals; *p and
 *p++ as rvalue, *p++ = e and *p = e as store; x = e, x op= e, ++x, x++ on locals; + - * << >> & | ^
 < <= > >= == != && || ! ?: ; integral casts to int / unsigned char / char; if, while, for (without
-continue), return, blocks, declarations with or without initialiser.
+continue; break allowed), return, blocks, declarations with or without initialiser; unsigned int
+arithmetic (EBinU); fread(&x, 1, 1, f) / fwrite(&x, 1, 1, f) with x an unsigned char local and f a
+FILE* parameter (EReadByte / EWriteByte), compared with a literal; *v = e with v an int* parameter
+(the pseudo-variable "*v").
 Refused: anything else, and any binary operator / store whose two operands both touch a variable
 that one of them modifies (the result would depend on the evaluation order)."""
 import json, os, subprocess, sys
@@ -17,11 +20,15 @@ REPO = os.environ.get("SBDF_REPO", "/repo")
 V = os.path.join(os.path.dirname(os.path.abspath(__file__)), "..")
 OUT = os.environ.get("C2IMP_OUT") or os.path.join(V, "coq", "Gen", "Prog.v")
 
-WANTED = [("sbdfstring.c", "sbdf_convert_utf8_to_iso88591"), ("sbdfstring.c", "sbdf_convert_iso88591_to_utf8")]
+WANTED = [("sbdfstring.c", "sbdf_convert_utf8_to_iso88591"), ("sbdfstring.c", "sbdf_convert_iso88591_to_utf8"),
+          ("internals.c", "sbdf_read_7bitpacked_int32"), ("internals.c", "sbdf_write_7bitpacked_int32")]
 
 
 class Untranslatable(Exception):
     pass
+
+
+OUTPARAMS = set()
 
 
 def ast_of(path):
@@ -34,7 +41,9 @@ def ast_of(path):
 
 BIN = {"+": "Add", "-": "Sub", "*": "Mul", "<<": "Shl", ">>": "Shr", "&": "BAnd", "|": "BOr", "^": "BXor",
        "<": "Lt", "<=": "Le", ">": "Gt", ">=": "Ge", "==": "Eq", "!=": "Ne"}
-CTY = {"int": "TInt", "unsigned char": "TUChar", "char": "TChar", "const char": "TChar", "const unsigned char": "TUChar", "const int": "TInt"}
+CTY = {"int": "TInt", "unsigned char": "TUChar", "char": "TChar", "const char": "TChar", "const unsigned char": "TUChar", "const int": "TInt",
+       "unsigned int": "TUInt", "const unsigned int": "TUInt"}
+SIZE_T = ("unsigned long", "size_t")
 
 
 def qt(n):
@@ -90,6 +99,37 @@ def expr(n, scope):
         return "(EConst %s)" % zlit(int(n["value"])), Fx()
     if k == "CharacterLiteral":
         return "(EConst %s)" % zlit(int(n["value"])), Fx()
+    if k == "UnaryExprOrTypeTraitExpr" and n.get("name") == "sizeof":
+        t = n.get("argType", {}).get("qualType") or (qt(unparen(n["inner"][0])) if n.get("inner") else "")
+        if t in ("char", "unsigned char", "signed char"): return "(EConst 1)", Fx()
+        if t in ("int", "unsigned int"): return "(EConst 4)", Fx()
+        raise Untranslatable("sizeof " + str(t))
+    if k == "CallExpr":
+        callee = unparen(n["inner"][0])
+        while callee.get("kind") == "ImplicitCastExpr": callee = unparen(callee["inner"][0])
+        cname = callee.get("referencedDecl", {}).get("name")
+        if cname in ("fread", "fwrite") and len(n["inner"]) == 5:
+            a0, a1, a2, a3 = [unparen(x) for x in n["inner"][1:]]
+            def const_of(x):
+                x = unparen(x)
+                while x.get("kind") in ("ImplicitCastExpr", "CStyleCastExpr") and x.get("castKind") in ("IntegralCast", "NoOp"): x = unparen(x["inner"][0])
+                if x.get("kind") == "IntegerLiteral": return int(x["value"])
+                if x.get("kind") == "UnaryExprOrTypeTraitExpr" and x.get("name") == "sizeof":
+                    t = x.get("argType", {}).get("qualType") or (qt(unparen(x["inner"][0])) if x.get("inner") else "")
+                    return 1 if t in ("char", "unsigned char", "signed char") else None
+                return None
+            while a0.get("kind") in ("ImplicitCastExpr", "CStyleCastExpr") and a0.get("castKind") in ("BitCast", "NoOp"): a0 = unparen(a0["inner"][0])
+            while a3.get("kind") == "ImplicitCastExpr": a3 = unparen(a3["inner"][0])
+            fparam = a3.get("kind") == "DeclRefExpr" and a3.get("referencedDecl", {}).get("kind") == "ParmVarDecl" and "FILE" in qt(a3)
+            if not (a0.get("kind") == "UnaryOperator" and a0.get("opcode") == "&" and const_of(a1) == 1 and const_of(a2) == 1 and fparam):
+                raise Untranslatable(cname + " other than (&x, 1, 1, f)")
+            v = var_of(a0["inner"][0], scope)
+            if v is None or qt(unparen(a0["inner"][0])) != "unsigned char": raise Untranslatable(cname + " on something that is not an unsigned char local")
+            f = Fx(); f.io = True; f.stream = True
+            if cname == "fread":
+                f.w.add(v); return '(EReadByte "%s")' % v, f
+            f.r.add(v); return '(EWriteByte (EVar "%s"))' % v, f
+        raise Untranslatable("call to " + str(cname))
     if k == "ImplicitCastExpr" or k == "CStyleCastExpr":
         ck = n.get("castKind")
         sub = n["inner"][0]
@@ -104,6 +144,11 @@ def expr(n, scope):
             raise Untranslatable("rvalue of " + str(s.get("kind")))
         if ck == "IntegralCast":
             t = qt(n)
+            if t in SIZE_T:
+                # only for comparing the count returned by fread / fwrite with a literal
+                u = unparen(sub)
+                if u.get("kind") == "IntegerLiteral" and 0 <= int(u["value"]) < 2 ** 31: return expr(sub, scope)
+                raise Untranslatable("conversion to size_t of something that is not a small literal")
             if t not in CTY: raise Untranslatable("cast to " + t)
             e, f = expr(sub, scope)
             return "(ECast %s %s)" % (CTY[t], e), f
@@ -136,6 +181,15 @@ def expr(n, scope):
                 if v in f.w: raise Untranslatable("assignment to a variable its right side modifies")
                 f.w.add(v)
                 return '(EAssign "%s" %s)' % (v, e), f
+            if la.get("kind") == "UnaryOperator" and la.get("opcode") == "*" and qt(unparen(la["inner"][0])).replace(" ", "") == "int*":
+                pv = unparen(la["inner"][0])
+                while pv.get("kind") == "ImplicitCastExpr": pv = unparen(pv["inner"][0])
+                if not (pv.get("kind") == "DeclRefExpr" and pv.get("referencedDecl", {}).get("kind") == "ParmVarDecl"): raise Untranslatable("store through an int* that is not a parameter")
+                nm = "*" + pv["referencedDecl"]["name"]
+                OUTPARAMS.add(nm)
+                e, f = expr(b, scope)
+                f.w.add(nm)
+                return '(EAssign "%s" %s)' % (nm, e), f
             if la.get("kind") == "UnaryOperator" and la.get("opcode") == "*":
                 p, fp = expr(la["inner"][0], scope)
                 e, fe = expr(b, scope)
@@ -152,19 +206,31 @@ def expr(n, scope):
             if not (is_intlike(qt(unparen(a))) or qt(a) in CTY) and False: pass
             ea, fa = expr(a, scope); eb, fb = expr(b, scope)
             if not order_ok(fa, fb): raise Untranslatable("operands of %s depend on the evaluation order" % op)
-            if not (qt(a) in CTY and qt(b) in CTY): raise Untranslatable("operator %s on %s, %s" % (op, qt(a), qt(b)))
-            return "(EBin %s %s %s)" % (BIN[op], ea, eb), fx_join(fa, fb)
+            ta, tb = qt(a), qt(b)
+            if ta in SIZE_T and tb in SIZE_T and op in ("==", "!=", "<", "<=", ">", ">="):
+                return "(EBin %s %s %s)" % (BIN[op], ea, eb), fx_join(fa, fb)        # counts of fread / fwrite: 0 or 1
+            if not (ta in CTY and tb in CTY): raise Untranslatable("operator %s on %s, %s" % (op, ta, tb))
+            uns = CTY[ta] == "TUInt" if op in ("<<", ">>") else (CTY[ta] == "TUInt" and CTY[tb] == "TUInt")
+            if not uns and (CTY[ta] == "TUInt" or CTY[tb] == "TUInt") and op not in ("<<", ">>"): raise Untranslatable("mixed signedness in %s" % op)
+            if uns is False and op in ("<<", ">>") and CTY[ta] != "TInt": raise Untranslatable("shift of " + ta)
+            return "(%s %s %s %s)" % ("EBinU" if uns else "EBin", BIN[op], ea, eb), fx_join(fa, fb)
         raise Untranslatable("operator " + str(op))
     if k == "CompoundAssignOperator":
         op = n.get("opcode")[:-1]
         a, b = n["inner"]
         v = var_of(a, scope)
         if v is None or op not in BIN: raise Untranslatable("compound assignment " + str(n.get("opcode")))
-        if qt(a) != "int" or n.get("computeResultType", {}).get("qualType", "int") != "int": raise Untranslatable("compound assignment on " + qt(a))
+        lt = qt(a)
+        ct = n.get("computeLHSType", {}).get("qualType", lt)
+        rt = n.get("computeResultType", {}).get("qualType", ct)
+        if lt not in CTY or ct not in ("int", "unsigned int") or rt != ct: raise Untranslatable("compound assignment on %s computed in %s" % (lt, ct))
         e, f = expr(b, scope)
         if v in f.w: raise Untranslatable("compound assignment to a variable its right side modifies")
         f.r.add(v); f.w.add(v)
-        return '(EAssign "%s" (EBin %s (EVar "%s") %s))' % (v, BIN[op], v, e), f
+        lhs = '(EVar "%s")' % v if lt == ct else '(ECast %s (EVar "%s"))' % (CTY[ct], v)
+        val = "(%s %s %s %s)" % ("EBinU" if ct == "unsigned int" else "EBin", BIN[op], lhs, e)
+        if lt != ct: val = "(ECast %s %s)" % (CTY[lt], val)
+        return '(EAssign "%s" %s)' % (v, val), f
     if k == "ConditionalOperator":
         c, fc = expr(n["inner"][0], scope); a, fa = expr(n["inner"][1], scope); b, fb = expr(n["inner"][2], scope)
         return "(ECond %s %s %s)" % (c, a, b), fx_join(fc, fx_join(fa, fb))
@@ -174,7 +240,7 @@ def expr(n, scope):
 
 
 def has_continue_or_break(n):
-    if n.get("kind") in ("ContinueStmt", "BreakStmt", "GotoStmt", "SwitchStmt", "DoStmt"): return True
+    if n.get("kind") in ("ContinueStmt", "GotoStmt", "SwitchStmt", "DoStmt"): return True
     return any(has_continue_or_break(c) for c in n.get("inner", []) if isinstance(c, dict))
 
 
@@ -229,6 +295,8 @@ def stmt(n, scope, declared):
         if inc and inc.get("kind"): b = "(SSeq %s (SExpr %s))" % (b, expr(inc, scope)[0])
         parts.append("(SWhile %s %s)" % (c, b))
         return seq(parts)
+    if k == "BreakStmt":
+        return "SBreak"
     if k == "ReturnStmt":
         if not n.get("inner"): raise Untranslatable("return without a value")
         return "(SReturn %s)" % expr(n["inner"][0], scope)[0]
@@ -255,13 +323,15 @@ def main():
             for c in decl["inner"]:
                 if c.get("kind") == "ParmVarDecl":
                     t = qt(c)
-                    if not (t in CTY or is_charptr(t)): raise Untranslatable("parameter of type " + t)
+                    if not (t in CTY or is_charptr(t) or t.replace(" ", "") in ("FILE*", "int*")): raise Untranslatable("parameter of type " + t)
                     params.append(c["name"])
             if len(set(params)) != len(params): raise Untranslatable("duplicate parameter names")
             body = [c for c in decl["inner"] if c.get("kind") == "CompoundStmt"][0]
             scope = set(params); declared = set(params)
+            OUTPARAMS.clear()
             b = stmt(body, scope, declared)
-            locs = [x for x in sorted(declared) if x not in params]
+            if "EDeref" in b and ("EReadByte" in b): raise Untranslatable("the input is used both as memory and as a stream")
+            locs = [x for x in sorted(declared) if x not in params] + sorted(OUTPARAMS)
             lines.append("Definition prog_%s : func :=\n  {| fparams := [%s];\n     flocals := [%s];\n     fbody := %s |}."
                          % (fn, "; ".join('"%s"' % p for p in params), "; ".join('"%s"' % p for p in locs), b))
             lines.append("")
